@@ -206,6 +206,11 @@ def run(ctx) -> Result:
                         continue
                     o = vtime.run(lambda loop, a=ttl, b=listen_off, c=enq_off, v=via: idle_consumer(a, b, c, v), budget=2_000_000)
                     check_idle(o, model, res)
+    # Redis broker: sessions on the real RedisMessageBroker/_RedisConsumer (in-process fake server) vs the Lean model
+    # Redis.R, and this property's clauses on what the implementation did
+    import redisrun
+    res.merge(redisrun.part(ctx, "C12", ['ttl', 'ttl', 'mixed'], crash=0, race=0))
+    res.assumptions = list(getattr(res, "assumptions", []) or []) + redisrun.ASSUMPTIONS
     return res
 
 
